@@ -31,14 +31,14 @@
 //        nullable, unreachable, unproductive, attribute and payload-type shapes, the generator's own helper names as user names) + every grammar
 //        over nonterminals {S, A} and terminals {$X, $Y} whose right-hand sides have length <= 1 (930 files; length <= 2 sampled 1 in 97 in the
 //        quick tier, 1 in 3 in the thorough tier) + 300 pseudo-random files (5 000 thorough, see LALR below) + the example files of the repository. Layouts: 7. get_grammar_hash: every text of <= 4 lines
-//        (<= 5 thorough) over an 11-line alphabet, LF and CRLF, with and without final terminator. Compile check: 5 grammar shapes x 56 namings
+//        (<= 5 thorough) over an 11-line alphabet, LF and CRLF, with and without final terminator. Compile check: 6 grammar shapes x 56 namings
 //        (one internal name at a time on every user-chosen position, then all at once) + the valid grammars of the family.
 //        Validation: the family + every single renaming `identifier j := identifier i` and every first-letter case flip in 8 base files (about 2 000 files with
 //        0..4 simultaneous violations).
 //        LALR: the well-formed files of the family, of the enumeration (right-hand sides <= 1: all; <= 2: 1 in 97, thorough 1 in 3) and 12 textbook grammars
 //        (LALR-not-SLR, LR(1)-not-LALR, dangling else, expression grammars, nullable chains) + 2 500 pseudo-random files (100 000 thorough) over 2..4
 //        nonterminals and 1..3 terminals with right-hand sides of 0..3 symbols (fixed LCG seeded with VERIF_SEED); the ill-formed ones are skipped.
-//        Emitted types: the accepted files of the family + 9 payload type expressions (unit, paths, generics nested <= 3) on 3 use sites + 11 attribute
+//        Emitted types: the accepted files of the family + 9 payload type expressions (unit, paths, generics nested <= 3) on 3 use sites + 13 attribute
 //        texts (non-ASCII, the three bracket kinds nested, 300 deep, quotes) on struct / enum / terminal declarations, 0..3 per declaration.
 #[cfg(test)]
 mod __vx_leafcheck {
@@ -48,7 +48,7 @@ mod __vx_leafcheck {
     fn thorough() -> bool { std::env::var("VX_LEAF_THOROUGH").is_ok() }
 
     // ------------------------------------------------------------------ the family ------------------------------------------------------------------
-    // compact form: tokens separated by blanks; `~` stands for a blank inside a token (attributes)
+    // compact form: tokens separated by blanks; `~` stands for a blank inside a token (attributes), `<TAB>` for a tab
     const VALID: &[&str] = &[
         "start Expr enum Expr { Empty Wrap { _ : $L inner : Expr _ : $R } } terminal Tok { $L : ( ) $R : ( ) }",
         "start S enum S { Assign ( L $Eq R ) Val ( R ) } enum L { Deref ( $Star R ) Id ( $Id ) } struct R ( L ) terminal Tok { $Eq : ( ) $Star : ( ) $Id : String }",
@@ -164,7 +164,7 @@ mod __vx_leafcheck {
         out
     }
 
-    fn tokens(compact: &str) -> Vec<String> { compact.split_whitespace().map(|t| t.replace('~', " ")).collect() }
+    fn tokens(compact: &str) -> Vec<String> { compact.split_whitespace().map(|t| t.replace('~', " ").replace("<TAB>", "\t")).collect() }
 
     /// `layout` in 0..7; returns the text and the byte position of every token in it. Every layout ends with trivia, so that "end of the source"
     /// is never also the end of the last token.
@@ -485,6 +485,7 @@ mod __vx_leafcheck {
         "start N0 struct N0 terminal TE { $X0 : ( ) }",
         "start N0 enum N0 { V0 ( $X0 $X1 $X2 ) V1 ( $X2 $X1 ) V3 { f0 : $X0 } } terminal TE { $X0 : crate :: P0 $X1 : crate :: P0 $X2 : ( ) }",
         "start N0 struct N0 ( N1 N2 N3 ) struct N1 ( $X0 ) struct N2 ( $X0 ) struct N3 { _ : $X0 } terminal TE { $X0 : crate :: P1 }",
+        "start N0 enum N0 { V0 ( $X0 N1 ) V1 { f0 : $X1 f1 : $X2 } } struct N1 ( $X2 $X1 ) terminal TE { $X0 : std :: collections :: HashMap < String , Vec < crate :: P0 > > $X1 : Result < ( ) , std :: string :: String > $X2 : Option < Box < Vec < ( ) > > > }",
     ];
     const HOLES_UPPER: [&str; 13] = ["N0", "N1", "N2", "N3", "V0", "V1", "V2", "V3", "X0", "X1", "X2", "TE", ""];
     const HOLES_LOWER: [&str; 4] = ["f0", "f1", "f2", "f3"];
@@ -842,7 +843,7 @@ mod __vx_leafcheck {
     }
 
     const PAYLOADS: &[&str] = &["( )", "u8", "crate :: P0", "std :: string :: String", "Vec < u8 >", "Vec < ( ) >", "Map < a :: K , Vec < Option < b :: V > > >", "Box < Box < Box < T > > >", "Result < ( ) , E >"];
-    const ATTRS: &[&str] = &["#[a]", "#[derive(Clone,~Debug)]", "#[doc~=~\"\u{e9}~\u{2200}~(~[~{~}~]~)~//~x\"]", "#[cfg_attr(all(),~allow(unused))]", "#[x~=~\"#[a]\"]", "#[~spaced~~out~]", "#[k({[({[x]})]})]", "#[serde(rename~=~\"$X~start~_\")]", "#[\u{65e5}]", "#[k(\u{2200})\u{1f600}]", "#[\u{1f600}{\u{e9}}\u{2200}[\u{65e5}]]"];
+    const ATTRS: &[&str] = &["#[a]", "#[derive(Clone,~Debug)]", "#[doc~=~\"\u{e9}~\u{2200}~(~[~{~}~]~)~//~x\"]", "#[cfg_attr(all(),~allow(unused))]", "#[x~=~\"#[a]\"]", "#[~spaced~~out~]", "#[k({[({[x]})]})]", "#[serde(rename~=~\"$X~start~_\")]", "#[derive(Clone,<TAB>Debug)]", "#[doc~=~\"two~~blanks<TAB>and~~~more\"]", "#[\u{65e5}]", "#[k(\u{2200})\u{1f600}]", "#[\u{1f600}{\u{e9}}\u{2200}[\u{65e5}]]"];
 
     fn types_family() -> Vec<Vec<String>> {
         let mut fam: Vec<String> = VALID.iter().map(|s| s.to_string()).collect();
@@ -865,6 +866,7 @@ mod __vx_leafcheck {
         // attributes on declarations without content, terminals whose names differ only in case
         fam.push("start S struct S ( $X ) #[a] #[b(c)] enum E { } #[c] struct U #[d] terminal T { $X : ( ) }".to_string());
         fam.push("start S struct S ( $AB $Ab $ABc ) struct N { p : $Ab q : $AB r : $ABc } terminal T { $Ab : u8 $AB : ( ) $ABc : Vec < u8 > }".to_string());
+        fam.push("start My_Expr enum My_Expr { V_1 ( $L_Paren My_Expr $R_PAREN ) V__2 { my_field : $Num_9 _x : Other_ } } struct Other_ ( $L_Paren ) terminal Tok_T { $L_Paren : ( ) $R_PAREN : ( ) $Num_9 : u8 }".to_string());
         fam.iter().map(|c| tokens(c)).collect()
     }
 
@@ -880,8 +882,8 @@ mod __vx_leafcheck {
         let terminal_types: Vec<(String, Vec<String>)> = items.first().map_or(vec![], |t| t.variants.iter().map(|(n, fs)| (n.clone(), match fs { Fs::Tuple(v) if v.len() == 1 => v[0].clone(), _ => vec![] })).collect());
         items.iter().enumerate().map(|(i, it)| Item {
             attrs: vec![], kind: it.kind.clone(), name: it.name.clone(), pub_fields: it.pub_fields || it.kind == "enum",
-            fieldset: strip_types(&it.fieldset, &terminal_types),
-            variants: it.variants.iter().map(|(n, fs)| (n.clone(), if i == 0 { Fs::Unit } else { strip_types(fs, &terminal_types) })).collect(),
+            fieldset: it.fieldset.clone(),
+            variants: it.variants.iter().map(|(n, fs)| (n.clone(), if i == 0 { Fs::Unit } else { fs.clone() })).collect(),
         }).collect()
     }
     fn payload_sites(items: &[Item]) -> Vec<(String, Vec<String>)> {
